@@ -91,21 +91,35 @@ def run(rep, tier):
                 problems = []
                 # host fast path reads the rest of the file with read() -> n None, after the header
                 hdr = [(n, g) for n, g in reads if n is not None]
+                sizes = [n for n, g in hdr]
+                ok1 = False
+                by_path = None
                 if lay == "ts":
-                    want = [(4, ())]
+                    want_desc = [4]
+                    ok1 = sizes == [4] and not hdr[0][1]
                 elif lay == "ts_size":
-                    want = [(4, ()), (4, ())]
+                    want_desc = [4, 4]
+                    ok1 = sizes == [4, 4] and not hdr[0][1] and not hdr[1][1]
                 else:
+                    # PEP 552: the flag word, then -- on complementary paths, in whichever order the branches are written -- the 8-byte hash, or the
+                    # 4-byte timestamp followed by the 4-byte size
+                    want_desc = [4, "8 | 4, 4"]
                     G = "bits(byte(%s, 0), 0, 1)" % (syms[0] if syms else "rd#1")
-                    want = [(4, ()), (8, (G,)), (4, ("not(%s)" % G,)), (4, ("not(%s)" % G,))]
-                ok1 = [n for n, g in hdr] == [n for n, g in want]
+                    rest = list(zip(hdr[1:], syms[1:]))
+                    groups_ = {}
+                    for (n_, g_), s_ in rest:
+                        groups_.setdefault(g_, []).append((n_, s_))
+                    shapes = sorted(([n_ for n_, s_ in v_] for v_ in groups_.values()), key=repr)
+                    ok1 = bool(hdr) and hdr[0] == (4, ()) and shapes == [[4, 4], [8]] and all(g_ for g_ in groups_)
+                    if ok1:
+                        g_hash = [g_ for g_, v_ in groups_.items() if [n_ for n_, s_ in v_] == [8]][0]
+                        g_ts = [g_ for g_, v_ in groups_.items() if [n_ for n_, s_ in v_] == [4, 4]][0]
+                        by_path = {"hash": groups_[g_hash][0][1], "ts": groups_[g_ts][0][1], "size": groups_[g_ts][1][1]}
+                        if not (g_hash == (G,) and g_ts == ("not(%s)" % G,)):
+                            problems.append(("R2", "pep552-flag-term", G, {"hash read when": list(g_hash), "timestamp/size read when": list(g_ts)},
+                                             "the hash/timestamp decision must test bit 0 of the first flag byte (u32 little-endian & 1)"))
                 if not ok1:
-                    problems.append(("R1", "reads", [n for n, g in want], [n for n, g in hdr], "header reads after the magic"))
-                elif lay == "pep552":
-                    gs = [g for n, g in hdr]
-                    if gs != [g for n, g in want]:
-                        problems.append(("R2", "pep552-flag-term", want[1][1][0], gs[1][0] if gs[1] else None,
-                                         "the hash/timestamp decision must test bit 0 of the first flag byte (u32 little-endian & 1)"))
+                    problems.append(("R1", "reads", want_desc, [(n, list(g)) if g else n for n, g in hdr], "header reads after the magic"))
                 # field terms
                 if ok1:
                     if lay == "ts":
@@ -113,11 +127,24 @@ def run(rep, tier):
                     elif lay == "ts_size":
                         chk = [("timestamp", ts, is_field(ts, syms[0], "<I")), ("source_size", size, is_field(size, syms[1], "<I")), ("sip_hash", sip, sip is None)]
                     else:
+                        from ..sve import eval_term
+                        Gt = Op("bits", Op("byte", syms[0], 0), 0, 1)
+
+                        def arm(t, flag):
+                            """value of the returned term when the flag bit is `flag` (the conditional may be written either way round)"""
+                            while isinstance(t, Guard):
+                                try:
+                                    t = t.a if eval_term(t.cond, {repr(Gt): flag, G: flag}) else t.b
+                                except Exception:
+                                    return "not evaluable"
+                            return t
+
                         def g_ok(t, hash_side, other):
-                            return isinstance(t, Guard) and ((hash_side is None and t.a is None) or (hash_side is not None and is_field(t.a, *hash_side))) and \
-                                ((other is None and t.b is None) or (other is not None and is_field(t.b, *other)))
-                        chk = [("timestamp", ts, g_ok(ts, None, (syms[2], "<I"))), ("source_size", size, g_ok(size, None, (syms[3], "<I"))),
-                               ("sip_hash", sip, g_ok(sip, (syms[1], "<Q"), None))]
+                            h_, o_ = arm(t, 1), arm(t, 0)
+                            return ((hash_side is None and h_ is None) or (hash_side is not None and is_field(h_, *hash_side))) and \
+                                ((other is None and o_ is None) or (other is not None and is_field(o_, *other)))
+                        chk = [("timestamp", ts, g_ok(ts, None, (by_path["ts"], "<I"))), ("source_size", size, g_ok(size, None, (by_path["size"], "<I"))),
+                               ("sip_hash", sip, g_ok(sip, (by_path["hash"], "<Q"), None))]
                     for nm, term, ok in chk:
                         if not ok:
                             problems.append(("R3", nm, "per layout %s" % lay, show(term), "%s is not the field the %s layout stores there" % (nm, lay)))
